@@ -26,7 +26,7 @@ SCALE = 1024          # coefficient tokens handed to the Lean model: coef * SCAL
 SEG_LETTERS = set('CLOVFGJSbrkKxd')
 INV_OPC = {v: k for k, v in nlgen.OPC.items()}
 VARIADIC = ('sum', 'min', 'max')
-N_THEOREMS = 45
+N_THEOREMS = 47
 # vptr excluded: mp's CRTP base constructors downcast `this` before the derived object exists (flat/converter.h:51),
 # which UBSan's vptr check reports on every run; unrelated to this property
 SAN_FLAGS = ('-O1', '-g', '-fsanitize=address,undefined', '-fno-sanitize=vptr', '-fno-sanitize-recover=all')
@@ -1033,6 +1033,7 @@ OBLIGATION_ORACLE = {
     'C12_gen_skel_Convert_objective': r'select:',
     'C12_gen_skel_sort_terms': r'select:',
     'C12_gen_sort_terms': r'select:',
+    'C12_gen_quad_sort_terms': r'select:',
 }
 
 
@@ -1128,6 +1129,25 @@ def gen_crosscheck(ck, drv, trdir, cov=False):
             nbad += 1
             ck.add_violation('corr:sort_terms', 'model sortTerms gives "%s", LinTerms::sort_terms gives "%s" for %s' % (l, h, a),
                              {'input': a, 'compiled': h, 'model': l, 'correspondence': 'drv_c12 T-lines vs harness/h_objfilter.cc sort_terms'}, found_input=False)
+    # QuadTerms::sort_terms: generated definition and model (driver op Q prints both) against the compiled function
+    qh, ql = [], []
+    for _ in range(300):
+        n = trng.below(8)
+        nv = trng.rint(1, 4)
+        ts = [(trng.choice([0, 1, -1, 2, -2, 3, -3, 5]), trng.below(nv), trng.below(nv)) for _ in range(n)]
+        flat = ' '.join('%d %d %d' % t for t in ts)
+        qh.append('quad_sort_terms ' + flat)
+        ql.append('Q ' + flat)
+    pq_h = subprocess.run([hexe], input='\n'.join(qh) + '\n', capture_output=True, text=True).stdout.split('\n')
+    pq_l = subprocess.run([drv], input='\n'.join(ql) + '\n', capture_output=True, text=True).stdout.split('\n')
+    qbad = 0
+    for a, h, l in zip(qh, pq_h, pq_l):
+        if l != h + ' | ' + h:
+            qbad += 1
+            ck.add_violation('gen:QuadTerms_sort_terms-differs', 'generated QuadTerms_sort_terms | model sortQuadTerms give "%s", the compiled QuadTerms::sort_terms gives "%s" for %s' % (l, h, a),
+                             {'input': a, 'compiled': h, 'generated_and_model': l, 'correspondence': 'drv_c12 Q-lines vs harness/h_objfilter.cc quad_sort_terms'}, found_input=False)
+    ck.cov['quad_sort_terms_lists_compared'] = len(qh)
+    ck.log('generated QuadTerms_sort_terms and model sortQuadTerms compared with the compiled function on %d random term lists, %d differ' % (len(qh), qbad))
     ck.cov['sort_terms_lists_compared'] = len(th)
     ck.log('model sortTerms and generated LinTerms_sort_terms compared with the compiled LinTerms::sort_terms on %d random term lists, %d differ' % (len(th), nbad))
     ck.cov['generated_defs'] = len(sig)
